@@ -98,9 +98,13 @@ func c11Faults() []c11Fault {
 		// doubles no numeral denotes (NaN, infinities, reached through num() or overflow): JSON has no spelling for them, no array has such an index
 		{"json of NaN", func() Expr { return CallE(V("json"), CallE(V("num"), S("NaN"))) }, false},
 		{"json of an array holding an infinity", func() Expr { return CallE(V("json"), Arr_(N("1"), CallE(V("num"), S("-Inf")))) }, false},
-		{"json of an overflowed product", func() Expr { return CallE(V("json"), &ObjLit{Keys: []string{"k"}, Vals: []Expr{Bin("*", CallE(V("num"), S("1e308")), N("10"))}}) }, false},
+		{"json of an overflowed product", func() Expr {
+			return CallE(V("json"), &ObjLit{Keys: []string{"k"}, Vals: []Expr{Bin("*", CallE(V("num"), S("1e308")), N("10"))}})
+		}, false},
 		{"array read at NaN", func() Expr { return Idx(V("arrv"), CallE(V("num"), S("NaN"))) }, false},
-		{"array store at NaN", func() Expr { return Asg("=", Idx(V("arrv"), Bin("-", CallE(V("num"), S("Inf")), CallE(V("num"), S("Inf")))), N("1")) }, false},
+		{"array store at NaN", func() Expr {
+			return Asg("=", Idx(V("arrv"), Bin("-", CallE(V("num"), S("Inf")), CallE(V("num"), S("Inf")))), N("1"))
+		}, false},
 		{"array ++ at an infinity", func() Expr { return &Postfix{"++", Idx(V("arrv"), CallE(V("num"), S("Inf")))} }, false},
 		{"array read at minus infinity", func() Expr { return Idx(V("arrv"), CallE(V("num"), S("-Inf"))) }, false},
 		{"modulo by NaN", func() Expr { return Bin("%", N("7"), CallE(V("num"), S("NaN"))) }, true},
@@ -285,7 +289,9 @@ func c11Slots() []c11Slot {
 		exprSlot("twin: unselected case", false, func(e Expr) Expr {
 			return &MatchExpr{Subj: N("1"), Cases: []MatchCase{{Pats: []Expr{N("2")}, Body: e}, {Pats: []Expr{V("_")}, Body: N("3")}, {Pats: []Expr{V("_")}, Body: e}}}
 		}),
-		stmtSlot("twin: zero-trip while", false, func(e func() Expr) Stmt { return &While{Cond: &BoolLit{B: false}, Body: Blk(Ex(Asg("=", V("t"), e())))} }),
+		stmtSlot("twin: zero-trip while", false, func(e func() Expr) Stmt {
+			return &While{Cond: &BoolLit{B: false}, Body: Blk(Ex(Asg("=", V("t"), e())))}
+		}),
 		stmtSlot("twin: zero-trip for-in", false, func(e func() Expr) Stmt { return &ForIn{V: "v", Iter: Arr_(), Body: Blk(Ex(Asg("=", V("t"), e())))} }),
 		{"twin: uncalled function", func(e func() Expr) ([]*Rule, []*Func, []Expr) {
 			f := &Func{Name: "nf", Body: Blk(&Return{e()})}
@@ -326,6 +332,7 @@ func c11FaultCheck(c *fw.Ctx, fault, slot int) *fw.Violation {
 	pc := c11FaultProg(fault, slot)
 	v, res, skipped := pc.check(c)
 	if skipped {
+		c.Note("declined: "+c11Faults()[fault].name+": "+res.Unfixed, 1)
 		return nil
 	}
 	f, sl := c11Faults()[fault], c11Slots()[slot]
@@ -463,8 +470,8 @@ func init() {
 		Rule: fmt.Sprintf("%d fault kinds (and 4 benign expressions) x %d syntactic slots incl. 9 never-evaluated twins, each between a print before and a print after; the model gives the exact output up to the fault and the outcome; ", nf-4, ns) +
 			fmt.Sprintf("syntax splices: %d seed programs (all print in BEGIN first) x every statement position of every rule body x %d certainly-bad statements, x every token boundary x {illegal character, stray ')', token deleted}; ", nseed, len(c11BadStmts)) +
 			"oracle for splices: syntax error and empty stdout (for stray ')' and deleted tokens: whenever the parse hook rejects the text); a state is (slot, outcome); non-trivial = (fault, slot) pairs where the model stops at the fault, and certainly-bad splices",
-		Plan:  func(t fw.Tier) int { return ns + nseed },
-		Bound: func(t fw.Tier) string { return "full product both tiers" },
+		Plan:        func(t fw.Tier) int { return ns + nseed },
+		Bound:       func(t fw.Tier) string { return "full product both tiers" },
 		Assumptions: []string{"reference interpreter mc/refsem for the output up to the fault", "hook VerifParse tells whether the parser accepts a text (used only for splices that may leave the program valid)"},
 		Run: func(c *fw.Ctx, u int) {
 			if u < ns {
